@@ -98,6 +98,9 @@ thread_local! {
     static CUR: RefCell<Option<Ctx>> = const { RefCell::new(None) };
     /// Set while a mode-B execution is running: the on_step hook yields to the scheduler.
     pub static IN_SHUTTLE: std::cell::Cell<bool> = const { std::cell::Cell::new(false) };
+    /// When set, EVERY departure from the default schedule (continue the running task, else the
+    /// lowest id) costs one deviation in mode B, not only preemptions.
+    pub static ALL_SWITCHES_COST: std::cell::Cell<bool> = const { std::cell::Cell::new(false) };
 }
 
 /// Shared DFS state of a mode-B exploration (outlives individual `Runner`s, so that a panicking
@@ -172,7 +175,7 @@ impl Scheduler for XSched {
                 order.push(t.id());
             }
         }
-        let cost = if cur_runnable { 1 } else { 0 };
+        let cost = if cur_runnable || ALL_SWITCHES_COST.with(|a| a.get()) { 1 } else { 0 };
         let k = ctx.choose_cost(Class::Sched, order.len(), cost);
         Some(order[k])
     }
